@@ -266,7 +266,7 @@ where
     fn get_symbol_list_iter(&self, list_index: Self::Size, extents: Extents<Self::Number>) -> Result<Self::SymbolListPartIterator, Self::Error> {
         let len = self.get_from_data_block_ensure_index(list_index)?.as_symbol_list()?;
         let start: usize = self.data_block().start + list_index + 1 + usize::from(extents.start()).min(len);
-        let end: usize = self.data_block().start + list_index + 1 + (usize::from(extents.end())).min(len);
+        let end: usize = (self.data_block().start + list_index + 1 + (usize::from(extents.end())).min(len)).max(start);
 
         Ok(SymbolListPartIterator::new(
             self.data()[start..end]
@@ -327,7 +327,7 @@ where
 
         let len = items.len();
         let start: usize = usize::from(extents.start()).min(len);
-        let end: usize = usize::from(extents.end()).min(len);
+        let end: usize = usize::from(extents.end()).min(len).max(start);
 
         Ok(DataIndexIterator::new(items[start..end].to_vec()))
     }
